@@ -159,7 +159,12 @@ theorem item_keeps_only_justified_reservations (s : Sys) (hwf : s.alloc.WF) (n :
           split
           · left; simp only [hs2, hrel]; exact heqv
           · split
-            · right; exact ⟨rfl, Or.inl hs2⟩
+            · right
+              refine ⟨rfl, ?_⟩
+              simp only [hs2]
+              cases hg : al.get? i with
+              | none => left; rfl
+              | some c => right; exact ⟨c, rfl, rfl⟩
             · split
               · left
                 simp only [hs2, hrel]
